@@ -683,6 +683,94 @@ def enumvals_cases(rng, tier):
     return cases
 
 
+# ------------------------------------------------------------------ shared ancestors (diamonds; C3 linearisation)
+
+DIAMOND_SHAPES = [
+    [("A", []), ("B", ["A"]), ("C", ["A"]), ("D", ["B", "C"])],
+    [("A", []), ("B", ["A"]), ("C", ["A"]), ("D", ["B", "C"]), ("E", ["D"])],
+    [("A", []), ("B", ["A"]), ("C", ["A"]), ("D", ["C", "B"]), ("E", ["D", "A"])],
+    [("A", []), ("A2", []), ("B", ["A", "A2"]), ("C", ["A2"]), ("D", ["B", "C"])],
+    [("A", []), ("B", ["A"]), ("C", ["B"]), ("D", ["B"]), ("E", ["C", "D"])],
+    [("A", []), ("B", ["A"]), ("C", ["A"]), ("D", ["A"]), ("E", ["B", "C", "D"])],
+]
+
+
+def diamond_cases(rng, tier):
+    """hierarchies with a shared Structure ancestor: own fields in every form, overriding along one branch,
+    flags on any class; plus the fixed family in which one branch redeclares an ancestor's Constant as a Field"""
+    cases = []
+    st = lambda name, bases, fields, **kw: dict({"kind": "struct", "name": name, "style": "annot",
+                                                "bases": [{"b": "cls", "name": b} for b in bases] or [{"b": "Structure"}],
+                                                "fields": fields}, **kw)
+    # the constant-shadowing family (finding names-mismatch:constant-shadowed-in-diamond)
+    for zform in ("req", "opt"):
+        items = [st("Y", [], [{"name": "n", "const": "3", "ty": ["Anything"]}, {"name": "y", "ty": ["Integer"]}]),
+                 st("P", ["Y"], [{"name": "p", "ty": ["Integer"]}]),
+                 st("Z", ["Y"], [{"name": "n", "ty": ["String"]}, {"name": "z", "ty": ["Integer"]}],
+                    **({"optional": ["n"]} if zform == "opt" else {})),
+                 st("B", ["P", "Z"], [{"name": "b", "ty": ["Integer"]}]),
+                 st("D", ["B"], [{"name": "d", "ty": ["Integer"]}]),
+                 st("D2", ["B"], [{"name": "d", "ty": ["Integer"]}], addl=False)]
+        cases.append({"suite": "stub", "mod": {"items": items}, "apd": True, "dflt": True, "seeds": [],
+                      "diamond": "constant-shadowed:" + zform})
+    n = 45 if tier == "quick" else 700
+    pool = [x for x in NAMES if x not in ("source_object", "ignore_props", "kw", "cls_", "self_")]
+    for k in range(n):
+        shape = rng.choice(DIAMOND_SHAPES)
+        names = rng.sample(pool, len(pool))
+        info = {}       # class -> {field: form} as inherited view (first base wins, own overrides)
+        items = []
+        for cname, bases in shape:
+            inherited = {}
+            for b in bases:
+                for fn, form in info[b].items():
+                    inherited.setdefault(fn, form)
+            fields, optional, required = [], [], None
+            for _ in range(rng.choice([0, 1, 1, 2, 2, 3]) if bases else rng.choice([1, 2, 3])):
+                fn = names.pop()
+                form = rng.choice(["req", "req", "opt", "dflt", "const", "typing-opt", "optshape"])
+                f = {"name": fn, "ty": [rng.choice(["String", "Integer", "Float", "Boolean"])]}
+                if form == "const":
+                    f = {"name": fn, "const": rng.choice(["3", "'c'", "0"]), "ty": ["Anything"]}
+                elif form == "dflt":
+                    f["default"] = {"String": "'d'", "Integer": "5", "Float": "2.5", "Boolean": "False"}[f["ty"][0]]
+                elif form == "opt":
+                    optional.append(fn)
+                elif form == "typing-opt":
+                    f["ty"] = ["pyopt", ["py", "int"]]
+                elif form == "optshape":
+                    f["ty"] = ["AnyOf", f["ty"], ["None"]]
+                    form = "req"
+                fields.append(f)
+                inherited[fn] = form
+            ov = [fn for fn, form in inherited.items() if form in ("req", "opt") and fn not in [f["name"] for f in fields]]
+            if bases and ov and rng.random() < 0.45:
+                fn = rng.choice(sorted(ov))
+                fields.append({"name": fn, "ty": [rng.choice(["String", "Integer"])]})
+                if inherited[fn] == "opt" and rng.random() < 0.5:
+                    optional.append(fn)
+                else:
+                    inherited[fn] = "req"
+            it = st(cname, bases, fields)
+            if optional:
+                it["optional"] = optional
+            elif fields and rng.random() < 0.2:
+                plain = [f["name"] for f in fields if f.get("const") is None and f.get("default") is None
+                         and f["ty"][0] != "pyopt"]
+                it["required"] = [x for x in plain if rng.random() < 0.6]
+                for x in plain:
+                    if x not in it["required"] and inherited.get(x) == "req" and x in ov:
+                        it["required"].append(x)
+            if rng.random() < 0.3:
+                it["addl"] = rng.random() < 0.5
+            info[cname] = inherited
+            items.append(it)
+        apd = rng.random() < 0.7
+        cases.append({"suite": "stub", "mod": {"items": items}, "apd": apd, "dflt": apd, "seeds": [],
+                      "diamond": "shape%d" % DIAMOND_SHAPES.index(shape)})
+    return cases
+
+
 # ------------------------------------------------------------------ two bases declaring the same field name
 
 MI_KINDS = ["req", "opt", "dflt", "const"]
@@ -1059,10 +1147,11 @@ def dump_hierarchy(mod, spec_by_name):
         return index[id(cls)]
 
     targets = []
+    nontree = []
     for name, it in spec_by_name.items():
         cls = getattr(mod, name)
         i = visit(cls)
-        # tree-shaped hierarchy only (the model's MRO is the depth-first pre-order)
+        # tree-shaped hierarchy: the tree model's MRO is the depth-first pre-order
         seen = []
 
         def walk(j):
@@ -1071,8 +1160,9 @@ def dump_hierarchy(mod, spec_by_name):
                 walk(b)
         walk(i)
         if len(seen) != len(set(seen)):
-            raise Unsupported(f"{name}: shared ancestor (diamond)")
+            nontree.append(i)       # shared ancestor: only the Define-based model (C3 linearisation) applies
         targets.append(i)
+    dump_hierarchy.nontree = nontree
     return table, targets
 
 
@@ -1242,6 +1332,7 @@ def run_impl(case):
         try:
             table, targets = dump_hierarchy(mod, spec_by_name)
             res["table"], res["targets"] = table, targets
+            res["nontree"] = list(dump_hierarchy.nontree)
         except Unsupported as e:
             res["unsupported"] = str(e)
             return res
@@ -1683,6 +1774,7 @@ def line(case, impl):
     if "table" in impl:
         l["classes"] = [{k: v for k, v in d.items() if k != "generated"} for d in impl["table"]]
         l["targets"] = impl["targets"]
+        l["nontree"] = impl.get("nontree", [])
     ex = impl.get("extra_imports")
     if ex and all(x.startswith("from ") and " import " in x for x in ex):
         # the (name, module) items, handed to the model in reverse order and doubled (a set has no order/multiplicity)
@@ -1711,6 +1803,9 @@ def tags(case, impl, model):
         out.append("multi-base-same-field:" + case["mi"])
     if case.get("enumvals"):
         out.append("enum-values:" + case["enumvals"])
+    if case.get("diamond"):
+        out.append("diamond:" + case["diamond"])
+    out += ["hierarchy:shared-ancestor"] * len(impl.get("nontree", []))
     if case.get("sig_site"):
         out += [f"sig-site:{case['sig_site']}", f"sig-default:{case['sig_default']}"]
     if "unbuildable" in impl:
